@@ -6,14 +6,19 @@
 (* {a, b, ., .., empty, <std>}, with "/" or "\" as the separator of the    *)
 (* written path (an empty first component is a leading separator):         *)
 (*    DeclConfined      a declared result is confined and in normal form   *)
-(*    CodedConfined     as coded, with a relative current file that lies   *)
-(*                      inside the working directory, a result is confined *)
-(*                      (C14 safety of the algorithm)                      *)
-(*    AgreeOnCleanDir   as coded = declared whenever the directory of the  *)
-(*                      current file is spelled without `.' and empty      *)
-(*                      components                                         *)
-(*    CodedNeverLooser  with a clean current directory, as coded rejects   *)
-(*                      whatever the declaration rejects                   *)
+(*    CodedConfined     as coded, with a relative current file, a result   *)
+(*                      is confined (C14 safety of the algorithm)          *)
+(*    AgreeUnlessDot    as coded = declared whenever the current file is   *)
+(*                      relative and its directory is spelled without a    *)
+(*                      `.' component (doubled separators are harmless)    *)
+(*    CodedDenotesInside  as coded, with a relative current file, the      *)
+(*                      accepted name denotes a file inside the working    *)
+(*                      directory                                          *)
+(* MC_IncludePaths_DotInCurrent.cfg checks AgreeDotInCurrent: the same     *)
+(* agreement WITHOUT the exception.  It fails on the current tree: a `.'   *)
+(* component of the current file counts as a directory level               *)
+(* ("./main.asm" + "../x" names "x" instead of being rejected) -- pinned   *)
+(* by the repository's own tests, recorded as a known finding.             *)
 (***************************************************************************)
 EXTENDS Include, TLC
 
@@ -46,8 +51,12 @@ Rel == LET r == Join(relc) IN
 D == Navigate(Cur, Rel)
 C == CodedNavigate(Cur, Rel)
 
+\* same outcome and same file (a coded result may keep the `./' of Cur)
+Agree == C.ok = D.ok /\ (C.ok => Canon(C.path) = D)
+
 DeclConfined == D.ok => Confined(D.path) /\ Canon(D.path) = D
-CodedConfined == (RelativeName(Cur) /\ Canon(Cur).ok /\ C.ok) => Confined(C.path)
-AgreeOnCleanDir == CleanDir(Cur) => C = D
-CodedNeverLooser == (CleanDir(Cur) /\ ~D.ok) => ~C.ok
+CodedConfined == (RelativeName(Cur) /\ C.ok) => Confined(C.path)
+CodedDenotesInside == (RelativeName(Cur) /\ C.ok) => Canon(C.path).ok
+AgreeUnlessDot == (RelativeName(Cur) /\ ~DotInDir(Cur)) => C = D
+AgreeDotInCurrent == RelativeName(Cur) => Agree
 =============================================================================
